@@ -255,7 +255,11 @@ func shellWorkflows(rng *rand.Rand, n int) []*spec.Spec {
 		for d := 0; d < depth; d++ {
 			pn := fmt.Sprintf("step_%d", d)
 			var cmd string
-			switch rng.Intn(9) {
+			switch rng.Intn(11) {
+			case 9: // a command of several lines with runs of blanks that matter
+				cmd = "printf 'id    value\\n' > {o:out}\ncat {i:in} >> {o:out}"
+			case 10: // a parameter that appears in the output name only (port created through InParam)
+				cmd = "rev {i:in} > {o:out}"
 			case 7: // a percent sign in the command (printf / date formats)
 				cmd = "printf '%s\\n' \"$(cat {i:in})\" > {o:out}"
 			case 8:
@@ -276,6 +280,14 @@ func shellWorkflows(rng *rand.Rand, n int) []*spec.Spec {
 				cmd = "wc -c < {i:in} > {o:out}"
 			}
 			p := &spec.Proc{Name: pn, Kind: spec.KCmd, Cmd: cmd}
+			if strings.HasPrefix(cmd, "rev ") {
+				vals := []string{}
+				for k := range files {
+					vals = append(vals, fmt.Sprintf("lab%d_%d", d, k))
+				}
+				p.Feeds = []*spec.Feed{{Port: "label", How: "str", Values: vals}}
+				p.Outs = []*spec.Out{{Port: "out", Pattern: pn + "_{p:label}.txt"}}
+			}
 			if strings.Contains(cmd, "GREETING") {
 				p.Prepend = "env GREETING=hello_" + pn
 			}
@@ -391,7 +403,7 @@ func c20(args []string) {
 	if err != nil {
 		c.Broken(err.Error())
 	}
-	c.Rule("(a) audit files of real runs of flat-path workflows built from plain shell commands (cat, tr, sed, rev, sort, wc, printf / awk with percent signs; chains of depth 1-5, diamonds with a shared ancestor - also one whose branches start at the two outputs of one task -, sub-stream joins, parameters; also produced by resumed runs: RunTo a prefix, then Run) and (b) audit trees generated directly (1-60 records, DAG-shaped sharing, equal / whole-second / zero start times, parameters and tags with underscores, source-file pseudo records) are converted with the CLI built from /repo/cmd/scipipe (audit2html, audit2tex, audit2bash; in every second case a longer stale report of the same name already exists); the outputs are parsed back and compared with the record flattened by id: every task (non-empty process name) listed exactly once, in non-decreasing start-time order, with its command, parameters and tags as the format prints them; for (a) the generated Bash script is executed in a directory holding only the source files and must re-create the file byte-identically. distinct_nontrivial = distinct audit trees with >= 2 tasks whose three conversions were all compared")
+	c.Rule("(a) audit files of real runs of flat-path workflows built from plain shell commands (cat, tr, sed, rev, sort, wc, printf / awk with percent signs, multi-line commands with significant blanks, parameters used in the output name only; chains of depth 1-5, diamonds with a shared ancestor - also one whose branches start at the two outputs of one task -, sub-stream joins, parameters; also produced by resumed runs: RunTo a prefix, then Run) and (b) audit trees generated directly (1-60 records, DAG-shaped sharing, equal / whole-second / zero start times, parameters and tags with underscores, source-file pseudo records) are converted with the CLI built from /repo/cmd/scipipe (audit2html, audit2tex, audit2bash; in every second case a longer stale report of the same name already exists); the outputs are parsed back and compared with the record flattened by id: every task (non-empty process name) listed exactly once, in non-decreasing start-time order, with its command, parameters and tags as the format prints them; for (a) the generated Bash script is executed in a directory holding only the source files and must re-create the file byte-identically. distinct_nontrivial = distinct audit trees with >= 2 tasks whose three conversions were all compared")
 	c.Assume("source-file pseudo records (empty process name) are not tasks and are not judged", "TeX: '_' is printed as '\\_' and parameters as k=v; Bash: '../' is removed from commands by the template")
 	rng := c.Rand("c20")
 	type job struct {
@@ -498,6 +510,21 @@ func c20(args []string) {
 			return
 		}
 		var ps []mon.Problem
+		if j.kind == "real" {
+			// every parameter port fed in the workflow shows up in the report entries of that process (whether or
+			// not the command pattern mentions it)
+			for _, l := range parseHTML(outs["html"]) {
+				pr := j.s.Proc(l.Proc)
+				if pr == nil {
+					continue
+				}
+				for _, f := range pr.Feeds {
+					if !strings.Contains(l.Params, f.Port+": ") {
+						ps = append(ps, mon.Problem{Sig: "html-task-params", Msg: fmt.Sprintf("html entry of process %s lists parameters %q, the workflow fed its port %s", l.Proc, l.Params, f.Port)})
+					}
+				}
+			}
+		}
 		ps = append(ps, reportProblems("html", parseHTML(outs["html"]), tasks)...)
 		ps = append(ps, reportProblems("tex", parseTeX(outs["tex"]), tasks)...)
 		ps = append(ps, reportProblems("bash", parseBash(outs["sh"]), tasks)...)
